@@ -3,6 +3,7 @@ module verifharness
 go 1.23.0
 
 require (
+	github.com/apache/thrift v0.21.0
 	github.com/dgryski/go-jump v0.0.0-20211018200510-ba001c3ffce0
 	github.com/smallnest/rpcx v0.0.0
 )
@@ -10,7 +11,6 @@ require (
 require (
 	github.com/akutz/memconn v0.1.0 // indirect
 	github.com/alitto/pond v1.9.2 // indirect
-	github.com/apache/thrift v0.21.0 // indirect
 	github.com/cenk/backoff v2.2.1+incompatible // indirect
 	github.com/cenkalti/backoff v2.2.1+incompatible // indirect
 	github.com/edwingeng/doublejump v1.0.1 // indirect
